@@ -569,3 +569,71 @@ func runRuneWhole(p *Program, r *RuleResult) {
 	}
 	r.count("scanner functions handling runes", judged)
 }
+
+// R-KEYWORD-EXACT (C15, C12): keywords are recognised on the spelling that was read.
+func init() {
+	register(&Rule{Name: "R-KEYWORD-EXACT", Min: 20,
+		Doc: "in the scan functions, every comparison of the scanned word with a keyword spelling compares the word as it was read – the text of the buffer the characters were collected in (or a parameter holding it) – never a transformed copy (lower-cased, trimmed, …): with a transformation, identifiers that differ from a keyword only by the transformation (Self, New, End) turn into keywords, so a printed term or type that uses such a name does not parse back to itself",
+		Run: runKeywordExact})
+}
+
+func runKeywordExact(p *Program, r *RuleResult) {
+	tokT := p.Named(parserPkg, "tok")
+	n := 0
+	for _, fn := range p.SrcFuncs {
+		if fn.Pkg == nil || fn.Pkg.Pkg.Path() != parserPkg || fn.Parent() != nil {
+			continue
+		}
+		res := fn.Signature.Results()
+		if res.Len() == 0 || !types.Identical(res.At(0).Type(), tokT) {
+			continue
+		}
+		view := p.View(fn)
+		for _, b := range view.Blocks() {
+			ins := view.Instrs(b)
+			if len(ins) == 0 {
+				continue
+			}
+			iff, ok := ins[len(ins)-1].(*ssa.If)
+			if !ok {
+				continue
+			}
+			bo, ok := iff.Cond.(*ssa.BinOp)
+			if !ok || (bo.Op != token.EQL && bo.Op != token.NEQ) {
+				continue
+			}
+			word, other := bo.Y, bo.X
+			k, isC := word.(*ssa.Const)
+			if !isC {
+				word, other = bo.X, bo.Y
+				k, isC = word.(*ssa.Const)
+			}
+			if !isC || k.Value == nil || k.Value.Kind() != constant.String {
+				continue
+			}
+			n++
+			spelling := constant.StringVal(k.Value)
+			construct := "keyword:" + spelling
+			okSrc, what := false, displayKey(other)
+			switch x := origin(other).(type) {
+			case *ssa.Parameter:
+				okSrc = true
+			case *ssa.Call:
+				if sc := x.Common().StaticCallee(); sc != nil && sc.Name() == "String" && len(x.Common().Args) == 1 && isBufferType(x.Common().Args[0].Type()) {
+					okSrc = true
+				} else if sc != nil {
+					what = "the result of " + sc.String()
+				}
+			case *ssa.UnOp:
+				okSrc = true // a field or local holding the word
+			}
+			if okSrc {
+				r.add(fnName(fn), construct, Holds, p.instrPos(iff), "compared with the word as read")
+			} else {
+				r.add(fnName(fn), construct, Violated, p.instrPos(bo),
+					fmt.Sprintf("the keyword %q is matched against %s, not against the word as it was read: other spellings of the keyword are no longer available as names", spelling, what))
+			}
+		}
+	}
+	r.count("keyword comparisons", n)
+}
